@@ -416,10 +416,12 @@ def _renewal(ctx, nz, server, loop):
                 calls = [c for n in graph.nodes
                          for c in C.node_calls(n)
                          if K.is_meth(c, 'restore') and
-                         N.txt(K.recv(c)) == "%s['server']" % dname]
+                         K.rtxt(loop.func, K.recv(c)) ==
+                         "%s['server']" % dname]
                 ok = bool(calls) and all(
                     len(c.args) == 2 and N.txt(c.args[0]) == var and
-                    N.txt(c.args[1]) == "%s['placement_expiry']" % dname
+                    K.rtxt(loop.func, c.args[1]) ==
+                    "%s['placement_expiry']" % dname
                     for c in calls)
                 ctx.ob('C03.5', loop.func, calls[0] if calls else None, ok,
                        'the fallback restores exactly the recorded server '
